@@ -1,8 +1,8 @@
 // normalize.go — a semantics-preserving normalisation pass over the parsed library source.
 //
 // Every generator calls normalizeFile / normalizeFileWith right after parsing a file (tiSrc.parse
-// for the ten generators built on ties_common.go; accessor, escape and slices call it directly;
-// `grammar` does not: it reads the GENERATED jsonpath.peg.go by byte offsets, which a
+// for the ten generators built on ties_common.go; accessor, escape, slices and — since round 4, with
+// normProfilePegRuntime — pegruntime call it directly; `grammar` and `pegrules` do not: it reads the GENERATED jsonpath.peg.go by byte offsets, which a
 // refactoring of hand-written code never touches). The pass rewrites Go code into the shapes the
 // generators' patterns expect, so that a behaviour-preserving refactoring of /repo (see
 // /verif/seeded/harmless) yields the same generated Lean as the unrefactored source. Where Go
@@ -63,6 +63,13 @@
 //	ruleArithLocal       n := len(xs) - 1; … n … → … len(xs) - 1 …   (while no operand of the expression can have changed)
 //	ruleShortIntDecl     var x int → x := 0   (profile shortIntDecl only: the inverse of ruleZeroDecl, for `slices`)
 //	normAggregateNames   canonical names for two locals of (*syntaxAggregateFunction).retrieve (alpha-renaming)
+//	-- round 4 (runtime closures of jsonpath.peg.go, syntaxErr, getSortedKeys, Retrieve) --
+//	ruleReturnFlip       also: if err == nil {return A}; return B → if err != nil {return B}; return A   (err a variable of type error)
+//	ruleLoopBreakFlip    end of a loop body: if c {S…; continue}; T…; break/return → if !c {T…; break/return}; S…
+//	ruleHeaderRead       *p = E; k := *p; … k … → *p = E; … (*p) …   (mirror of ruleHeaderAlias; p is non-nil after the store)
+//	ruleJoinDefs         x := E1; y := E2 → x, y := E1, E2   (profile joinDefs: call-free, independent, at most one can panic)
+//	ruleIfNegation       profile notFirstBool: if v {B} else {A} → if !v {A} else {B}   (v a bool variable; memoize in jsonpath.peg.go)
+//	normSyntaxErrNames   canonical names for the three locals of syntaxErr (alpha-renaming)
 //
 // NOT normalised, deliberately (no checkable side condition makes them equivalences): replacing
 // an indexed fill of a pre-sized slice by append (needs a bound on the number of appends),
@@ -107,7 +114,16 @@ type normProfile struct {
 	loopElseContinue bool // last in a loop body: `if [init;] A {S} else {T…}` -> `if [init;] A {S; continue}; T…`
 	eqFirst          bool // `if a != b {A} else {B}` -> `if a == b {B} else {A}`
 	shortIntDecl     bool // `var x int` -> `x := 0` (the generator's patterns spell the short form; implies keepIntShort)
+	// round 4 (the runtime closures of jsonpath.peg.go, syntaxErr): see normProfilePegRuntime / syntaxerr.go
+	keepVoidEarly bool // do not fold `if c {A; return}; B` of a result-less function into if/else
+	notFirstBool  bool // `if v {B} else {A}` (v a bool VARIABLE) -> `if !v {A} else {B}`; the `!c` direction of ruleIfNegation is off
+	joinDefs      bool // `x := E1; y := E2` -> `x, y := E1, E2` (ruleJoinDefs)
 }
+
+// normProfilePegRuntime: the canonical spellings of the hand-written runtime around the rule table of
+// jsonpath.peg.go (generator `pegruntime`): `if a && b {…}` stays one condition, the guard
+// `if p.disableMemoize { return }` stays an early return, and memoize tests `!matched` first.
+var normProfilePegRuntime = normProfile{keepAndCond: true, keepVoidEarly: true, notFirstBool: true}
 
 // normFileDirections: directions that hold for one file of the library, whichever generator reads
 // it (the library spells these constructs both ways, so the canonical form is per file).
@@ -1171,6 +1187,37 @@ func normLoopMethodNames(fd *ast.FuncDecl, p0, p1, flag, idx string) {
 	}
 }
 
+// normSyntaxErrNames gives the three locals of a method of the shape
+//
+//	func (p *T) syntaxErr(…) error { A, B := e1, e2; for I := range X {…}; … }
+//
+// the names the library uses today (byteOffset, runeCount, index), looked up from their
+// declarations by position: the generator `syntaxerr` quotes local names in the Lean it emits.
+// Pure alpha-renaming (normRenameLocal: refused when a name is declared twice, when the new name
+// already occurs in the function or names a package-level / universe object); when a renaming is
+// refused the generator sees the source names.
+func normSyntaxErrNames(fd *ast.FuncDecl) {
+	if fd == nil || fd.Body == nil || len(fd.Body.List) == 0 {
+		return
+	}
+	if a, ok := fd.Body.List[0].(*ast.AssignStmt); ok && a.Tok == token.DEFINE && len(a.Lhs) == 2 {
+		x, ok1 := a.Lhs[0].(*ast.Ident)
+		y, ok2 := a.Lhs[1].(*ast.Ident)
+		if ok1 && ok2 {
+			normRenameLocal(fd, x.Name, "byteOffset")
+			normRenameLocal(fd, y.Name, "runeCount")
+		}
+	}
+	for _, st := range fd.Body.List {
+		if r, ok := st.(*ast.RangeStmt); ok {
+			if id, ok := r.Key.(*ast.Ident); ok && r.Tok == token.DEFINE && r.Value == nil {
+				normRenameLocal(fd, id.Name, "index")
+			}
+			return // only the first top-level loop
+		}
+	}
+}
+
 // ---- the rewrites
 
 // run normalises every function declaration of the file. Rules are applied round by round until
@@ -1195,6 +1242,7 @@ func (c *normCtx) run() {
 			c.ruleTypeSwitchOrder(fd)
 			visitLists(fd, c.ruleAssertInit)
 			visitLists(fd, c.ruleAssertChain)
+			visitLists(fd, c.ruleJoinDefs) // before ruleZeroDecl takes `y := 0` away
 			visitLists(fd, c.ruleZeroDecl)
 			visitLists(fd, c.ruleShortIntDecl)
 			visitLists(fd, c.ruleDeferClosure)
@@ -1205,9 +1253,11 @@ func (c *normCtx) run() {
 			visitLists(fd, c.ruleElemLocal)
 			visitLists(fd, c.ruleFwdLocal)
 			visitLists(fd, c.ruleHeaderAlias)
+			visitLists(fd, c.ruleHeaderRead)
 			visitLists(fd, c.ruleAliasRead)
 			visitLists(fd, c.ruleCopyLoop)
 			visitLists(fd, c.ruleLoopContinue)
+			visitLists(fd, c.ruleLoopBreakFlip)
 			visitLists(fd, c.ruleElseAfterJump)
 			visitLists(fd, c.ruleVoidEarlyReturn)
 			visitLists(fd, c.ruleTailMerge)
@@ -1231,6 +1281,8 @@ func (c *normCtx) run() {
 				normLoopMethodNames(fd, "values", "", "foundValue", "index")
 			case "retrieve":
 				normAggregateNames(fd)
+			case "syntaxErr":
+				normSyntaxErrNames(fd)
 			}
 		}
 		c.fn = nil
@@ -1420,7 +1472,19 @@ func (c *normCtx) ruleIfNegation(fd *ast.FuncDecl) {
 			return true
 		}
 		var pos ast.Expr // the condition of the rewritten statement
-		if u, ok := unparen(is.Cond).(*ast.UnaryExpr); ok && u.Op == token.NOT {
+		if c.prof.notFirstBool {
+			// the opposite direction, for a condition that is a bare boolean VARIABLE (go/types):
+			// reading it has no effect and cannot panic; `!v` is true exactly when v is false, so
+			// the same branch bodies run. `if !c {…} else {…}` is left as written.
+			id, ok := unparen(is.Cond).(*ast.Ident)
+			if !ok {
+				return true
+			}
+			if _, isVar := c.objOf(id).(*types.Var); !isVar {
+				return true
+			}
+			pos = &ast.UnaryExpr{OpPos: id.Pos(), Op: token.NOT, X: id}
+		} else if u, ok := unparen(is.Cond).(*ast.UnaryExpr); ok && u.Op == token.NOT {
 			pos = unparen(u.X)
 		} else if b, ok := unparen(is.Cond).(*ast.BinaryExpr); ok && b.Op == token.NEQ && c.prof.eqFirst {
 			pos = negate(b) // a == b: the exact negation of a != b (see negate)
@@ -1464,6 +1528,11 @@ func (c *normCtx) ruleElseIf(fd *ast.FuncDecl) {
 // executed in either form — the same one for the same value of the condition (negate is exact).
 // Checked: the if has no init and no else, its body is exactly one return statement, and the
 // statement right after it is a return.
+// Round 4: `if err == nil { return A }; return B` -> `if err != nil { return B }; return A` when err
+// is an identifier whose static type is the predeclared interface `error` (go/types). Same
+// argument (comparing an interface value with nil neither panics nor has an effect; exactly one
+// of the two returns runs, the same one for the same err). Canonical direction: the library tests
+// an error for `!= nil` first in every such pair; other nil tests stay as written.
 func (c *normCtx) ruleReturnFlip(list []ast.Stmt, _ listCtx) []ast.Stmt {
 	for i := 0; i+1 < len(list); i++ {
 		is, ok := list[i].(*ast.IfStmt)
@@ -1481,8 +1550,12 @@ func (c *normCtx) ruleReturnFlip(list []ast.Stmt, _ listCtx) []ast.Stmt {
 			neg = x.Op == token.NOT
 		case *ast.BinaryExpr:
 			// comparisons with nil are left as written: the library uses both `x == nil` and
-			// `x != nil` in this position, so neither is canonical
+			// `x != nil` in this position, so neither is canonical — except for a variable of
+			// type error, which is tested `!= nil` first
 			neg = x.Op == token.NEQ && !isNilIdent(x.X) && !isNilIdent(x.Y)
+			if x.Op == token.EQL && (c.isErrorVar(x.X) && isNilIdent(x.Y) || c.isErrorVar(x.Y) && isNilIdent(x.X)) {
+				neg = true
+			}
 		}
 		if !neg {
 			continue
@@ -1492,6 +1565,16 @@ func (c *normCtx) ruleReturnFlip(list []ast.Stmt, _ listCtx) []ast.Stmt {
 		c.mark("ruleReturnFlip")
 	}
 	return list
+}
+
+// isErrorVar: e is an identifier denoting a variable whose static type is the predeclared `error`.
+func (c *normCtx) isErrorVar(e ast.Expr) bool {
+	id, ok := e.(*ast.Ident)
+	if !ok {
+		return false
+	}
+	v, ok := c.objOf(id).(*types.Var)
+	return ok && types.Identical(v.Type(), types.Universe.Lookup("error").Type())
 }
 
 // ruleSplitAnd: `if a && b { S }` (no else) -> `if a { if b { S } }`.
@@ -1619,6 +1702,117 @@ func (c *normCtx) movableOut(b []ast.Stmt, init ast.Stmt, after []ast.Stmt) bool
 		}
 	}
 	return true
+}
+
+// ruleLoopBreakFlip: at the END of a loop body,
+//
+//	if c { S…; continue }; T…; J        ->   if !c { T…; J }; S…
+//
+// with J an unlabeled `break` or a `return` (so `continue` is never moved the other way: the rule
+// has one direction and its result does not match its own pattern).
+// Sound because c is evaluated once in both forms. When c holds, the old form runs S… and
+// `continue`s: the rest of the body is skipped and the loop goes on with its post statement /
+// next element — exactly what falling off the end of the body does, and in the new form S… are
+// the last statements of the body. When c does not hold both forms run T…; J, and J leaves the
+// body, so S… is not reached. Unlabeled break / continue inside S… and T… bind to the same loop
+// (an if statement is not a break target). Checked: the list is the body of a for / range
+// statement; the if has no init and no else; its block ends in an unlabeled `continue`; the
+// statements after it end in J; no labels or goto anywhere in the function; the names S…
+// declares at its top level are declared once in the function (movableOut: leaving the block
+// they neither clash with nor capture anything); T… only moves INTO a block, and nothing follows it.
+func (c *normCtx) ruleLoopBreakFlip(list []ast.Stmt, ctx listCtx) []ast.Stmt {
+	if ctx.kind != lkLoop || c.fn == nil || hasLabelsOrGoto(c.fn) {
+		return list
+	}
+	for i := 0; i+1 < len(list); i++ {
+		is, ok := list[i].(*ast.IfStmt)
+		if !ok || is.Init != nil || is.Else != nil || len(is.Body.List) == 0 {
+			continue
+		}
+		br, ok := is.Body.List[len(is.Body.List)-1].(*ast.BranchStmt)
+		if !ok || br.Tok != token.CONTINUE || br.Label != nil {
+			continue
+		}
+		rest := list[i+1:]
+		switch j := rest[len(rest)-1].(type) {
+		case *ast.ReturnStmt:
+		case *ast.BranchStmt:
+			if j.Tok != token.BREAK || j.Label != nil {
+				continue
+			}
+		default:
+			continue
+		}
+		body := is.Body.List[:len(is.Body.List)-1]
+		if !c.movableOut(body, nil, nil) {
+			continue
+		}
+		is.Cond = negate(is.Cond)
+		is.Body = &ast.BlockStmt{Lbrace: is.Body.Lbrace, List: append([]ast.Stmt(nil), rest...), Rbrace: is.Body.Rbrace}
+		out := append([]ast.Stmt(nil), list[:i+1]...)
+		out = append(out, body...)
+		c.mark("ruleLoopBreakFlip")
+		return out
+	}
+	return list
+}
+
+// noPanicExpr: identifiers, basic literals, len / cap (the builtins) of such, parentheses: evaluating
+// it cannot panic, has no effect and calls nothing.
+func (c *normCtx) noPanicExpr(e ast.Expr) bool {
+	switch x := e.(type) {
+	case *ast.Ident, *ast.BasicLit:
+		return true
+	case *ast.ParenExpr:
+		return c.noPanicExpr(x.X)
+	case *ast.CallExpr:
+		if len(x.Args) == 1 && (c.isBuiltin(x.Fun, "len") || c.isBuiltin(x.Fun, "cap")) {
+			return c.noPanicExpr(x.Args[0])
+		}
+	}
+	return false
+}
+
+// ruleJoinDefs (profile joinDefs only): `x := E1; y := E2` -> `x, y := E1, E2`.
+// Sound because — all checked — x and y are two different names, both NEWLY declared by these
+// statements (go/types: definitions) and not blank; E2 does not mention x and E1 does not mention
+// y, so each right-hand side denotes the same thing whether or not the other variable is already
+// in scope; neither side contains a call, closure or receive (impureIn), so nothing observable
+// happens between the two evaluations and their relative order does not matter; at least one of
+// them cannot panic (noPanicExpr), so the only possible panic is the same one, raised before
+// anything else happens. Each variable gets the type of its own initialiser in both forms.
+// The scopes of x and y then start at the same statement instead of one statement apart; nothing
+// lies in between. A profile rule: the library spells such pairs both ways, the canonical form is
+// chosen by the generator that reads the function (syntaxerr: the parallel form).
+func (c *normCtx) ruleJoinDefs(list []ast.Stmt, _ listCtx) []ast.Stmt {
+	if !c.prof.joinDefs {
+		return list
+	}
+	for i := 0; i+1 < len(list); i++ {
+		a, ok1 := list[i].(*ast.AssignStmt)
+		b, ok2 := list[i+1].(*ast.AssignStmt)
+		if !ok1 || !ok2 || a.Tok != token.DEFINE || b.Tok != token.DEFINE ||
+			len(a.Lhs) != 1 || len(a.Rhs) != 1 || len(b.Lhs) != 1 || len(b.Rhs) != 1 {
+			continue
+		}
+		x, okx := a.Lhs[0].(*ast.Ident)
+		y, oky := b.Lhs[0].(*ast.Ident)
+		if !okx || !oky || x.Name == "_" || y.Name == "_" || x.Name == y.Name || !c.isNewDef(x) || !c.isNewDef(y) {
+			continue
+		}
+		if countIdent(b.Rhs[0], x.Name) > 0 || countIdent(a.Rhs[0], y.Name) > 0 {
+			continue
+		}
+		if c.impureIn(a.Rhs[0]) || c.impureIn(b.Rhs[0]) || !(c.noPanicExpr(a.Rhs[0]) || c.noPanicExpr(b.Rhs[0])) {
+			continue
+		}
+		a.Lhs = append(a.Lhs, y)
+		a.Rhs = append(a.Rhs, b.Rhs[0])
+		out := append([]ast.Stmt(nil), list[:i+1]...)
+		c.mark("ruleJoinDefs")
+		return append(out, list[i+2:]...)
+	}
+	return list
 }
 
 // ruleElseAfterJump: `if c { A…; J } else { B… }; rest` with J a return, break, continue, goto or
@@ -1823,6 +2017,9 @@ func (c *normCtx) ruleTypeSwitchOrder(fd *ast.FuncDecl) {
 // Checked: the statement list is the function body itself; no init on the if (B would move into
 // its scope), no else; no labels or goto in the function (B moves into a block).
 func (c *normCtx) ruleVoidEarlyReturn(list []ast.Stmt, ctx listCtx) []ast.Stmt {
+	if c.prof.keepVoidEarly {
+		return list
+	}
 	if ctx.kind != lkFunc || ctx.ftype == nil || (ctx.ftype.Results != nil && len(ctx.ftype.Results.List) > 0) {
 		return list
 	}
@@ -2864,6 +3061,94 @@ func (c *normCtx) ruleHeaderAlias(list []ast.Stmt, _ listCtx) []ast.Stmt {
 		c.mark("ruleHeaderAlias")
 		out := append([]ast.Stmt(nil), list[:i]...)
 		return append(out, list[i+1:]...)
+	}
+	return list
+}
+
+// ruleHeaderRead: `*p = E; k := *p; … k …` -> `*p = E; … (*p) …`  (declaration of k removed) — the
+// mirror image of ruleHeaderAlias: the local is a copy read back right AFTER the store.
+// Sound because — all checked, with the same analyses as ruleHeaderAlias —
+//   - p is a stableLocal of pointer type, so `*p` names the same variable at every point; k is a
+//     stableLocal with exactly the type of *p, which is not a struct or array type;
+//   - the statement right before the declaration stores to `*p` through that same p: had p been
+//     nil it would have panicked there, so neither `k := *p` nor any later `(*p)` can panic on the
+//     dereference — dropping the read changes no panic, and moving it to the uses adds none;
+//   - right after the declaration *p == k. Every use of k is reached before anything that could
+//     change *p (earlyScan: no call, closure, go, defer, send, receive, and no store — `:=` that
+//     re-assigns included — to storage that can hold a variable of that type; inside a loop that
+//     mentions k the whole loop must be free of those); k itself never changes. For a slice
+//     header this means `k[i] = v` and `(*p)[i] = v` have the same bounds check and write the
+//     same element of the same backing array (an element store cannot change a header: cannotHold);
+//   - k is used only as a value, by object, and no closure captures it.
+func (c *normCtx) ruleHeaderRead(list []ast.Stmt, _ listCtx) []ast.Stmt {
+	for i := 0; i+1 < len(list); i++ {
+		st, ok := list[i].(*ast.AssignStmt)
+		d, ok2 := list[i+1].(*ast.AssignStmt)
+		if !ok || !ok2 || d.Tok != token.DEFINE || len(d.Lhs) != 1 || len(d.Rhs) != 1 ||
+			st.Tok != token.ASSIGN || len(st.Lhs) != 1 || len(st.Rhs) != 1 {
+			continue
+		}
+		k, ok := d.Lhs[0].(*ast.Ident)
+		if !ok || k.Name == "_" {
+			continue
+		}
+		star, ok := st.Lhs[0].(*ast.StarExpr)
+		rstar, ok2 := d.Rhs[0].(*ast.StarExpr)
+		if !ok || !ok2 {
+			continue
+		}
+		p, ok := star.X.(*ast.Ident)
+		rp, ok2 := rstar.X.(*ast.Ident)
+		if !ok || !ok2 || !c.stableLocal(p) || !c.stableLocal(k) {
+			continue
+		}
+		kobj, pobj := c.objOf(k), c.objOf(p)
+		if kobj == nil || pobj == nil || c.objOf(rp) != pobj || pobj == kobj {
+			continue
+		}
+		tp := c.typeOf(p)
+		if tp == nil {
+			continue
+		}
+		pt, ok := tp.Underlying().(*types.Pointer)
+		if !ok || isComposite(pt.Elem()) || !types.Identical(pt.Elem(), kobj.Type()) {
+			continue
+		}
+		header := pt.Elem()
+		rest := list[i+2:]
+		uses, names := 0, 0
+		captured := false
+		for _, r := range rest {
+			uses += c.countObj(r, kobj)
+			names += countIdent(r, k.Name)
+			ast.Inspect(r, func(n ast.Node) bool {
+				if fl, ok := n.(*ast.FuncLit); ok && countIdent(fl, k.Name) > 0 {
+					captured = true
+				}
+				return !captured
+			})
+		}
+		if uses != names || captured {
+			continue
+		}
+		sc := &earlyScan{c: c, x: kobj, ok: true, strictDefine: true}
+		sc.harmless = func(l ast.Expr) bool {
+			if id, isId := l.(*ast.Ident); isId && id.Name == "_" {
+				return true
+			}
+			return cannotHold(c.typeOf(l), header)
+		}
+		sc.stmts(rest, false)
+		if !sc.ok {
+			continue
+		}
+		repl := &ast.ParenExpr{Lparen: star.Pos(), X: c.cloneExpr(star), Rparen: star.End()}
+		for _, r := range rest {
+			c.substObj(r, kobj, repl)
+		}
+		c.mark("ruleHeaderRead")
+		out := append([]ast.Stmt(nil), list[:i+1]...)
+		return append(out, rest...)
 	}
 	return list
 }
